@@ -203,6 +203,8 @@ def h1(ctx, R, only=None):
             ctx.holds("H1", "registry writer %s: %s" % (f.qualname, norm(st)[:60]))
         elif target == "<module namespace>" and f is R.add_commands:
             ctx.holds("H1", "command namespace written by %s (configuration, C20)" % f.qualname)
+        elif f is R.add_commands and R.command_namespace() == ("registry", target) and how == "subscript store":
+            ctx.holds("H1", "command registry %s written by %s (configuration, C20)" % (target, f.qualname))
         else:
             ctx.violation("H1", f, "shared-write:%s" % target, "process-shared object %s is modified in %s (%s): %s" % (
                 target, f.qualname, how, norm(st)[:70]), node=st,
